@@ -147,14 +147,20 @@ def run_mc(prop, tier, mc):
     return {"model": name, "cfg": cfg, "states": st["distinct"], "transitions": st["generated"], "wall_s": round(dt, 1), "exhaustive": True}, out
 
 
-def run_gen(prop, tier, gen, workdir):
+def run_gen(prop, tier, gen, workdir, seed=1):
     """let TLC print generated cases (lines 'CASE {json}'); returns path of the case file"""
     cfg = gen.get("cfg_thorough") if tier == "thorough" and gen.get("cfg_thorough") else gen["cfg"]
-    rc, out, dt = run_tlc(f"{prop}-{gen['name']}", gen["module"], cfg, gen.get("workers", 1), timeout=gen.get("timeout", 1800))
-    if rc != 0 or "No error has been found" not in out:
+    extra = None
+    if gen.get("simulate"):
+        # long random behaviours: TLC simulation mode, reproducible from the seed of the check
+        sim = gen["simulate"]
+        extra = ["-simulate", f"num={sim['num_thorough'] if tier == 'thorough' else sim['num']}", "-depth", str(sim["depth"]), "-seed", str(seed)]
+    rc, out, dt = run_tlc(f"{prop}-{gen['name']}", gen["module"], cfg, gen.get("workers", 1), timeout=gen.get("timeout", 1800), extra=extra)
+    ok = ("traces generated" in out and "Error" not in out) if gen.get("simulate") else "No error has been found" in out
+    if rc != 0 or not ok:
         tool_error(f"generator {gen['module']}/{cfg} failed (rc={rc}): {out[-3000:]}")
     path = os.path.join(workdir, gen["name"] + ".cases.ndjson")
-    n = 0
+    n = marks = 0
     with open(path, "w") as f:
         f.write('{"ev":"Reset","sc":"generated"}\n')
         for line in out.splitlines():
@@ -164,11 +170,20 @@ def run_gen(prop, tier, gen, workdir):
                     s = json.loads(line)
                 except Exception:
                     continue
+                if s[5:] == '{"ev":"Mark"}':
+                    # start of a generated behaviour: every mark_every-th one starts a new validation chunk
+                    marks += 1
+                    if gen.get("mark_every") and marks % gen["mark_every"] == 0:
+                        f.write('{"ev":"Reset","sc":"generated"}\n')
+                    continue
                 f.write(s[5:] + "\n")
                 n += 1
                 if gen.get("reset_every", 300) and n % gen.get("reset_every", 300) == 0:
                     f.write('{"ev":"Reset","sc":"generated"}\n')   # lets the trace be validated in parallel chunks
-    st = parse_mc_stats(out) or {"distinct": 0, "generated": 0}
+    st = parse_mc_stats(out)
+    if not st:
+        m = re.search(r"(\d+) states checked", out)
+        st = {"distinct": int(m.group(1)) if m else 0, "generated": int(m.group(1)) if m else 0}
     return path, n, {"model": gen["name"], "cfg": cfg, "states": st["distinct"], "transitions": st["generated"],
                      "cases": n, "wall_s": round(dt, 1)}
 
@@ -382,7 +397,7 @@ def main():
             for gen in P.get("gen", []):
                 if tier == "quick" and gen.get("thorough_only"):
                     continue
-                path, n, st = run_gen(prop, tier, gen, work)
+                path, n, st = run_gen(prop, tier, gen, work, seed)
                 gen_stats.append(st)
                 log(f"[{prop}] GEN {st}")
                 out = os.path.join(work, gen["name"] + ".trace.ndjson")
@@ -518,6 +533,9 @@ def main():
             print(f"  signature: {sig}")
             print(f"  detail: {detail}")
         sys.exit(1)
+    differs = {k: v for k, v in cov_total.items() if k.startswith("MODEL|differs") and v > 0}
+    if differs:
+        tool_error(f"the system model NdInterp and the trace specification disagree on replayed behaviours: {differs}")
     if missing:
         tool_error(f"vacuity: required coverage classes never exercised: {missing}")
     print(f"OK property={prop} tier={tier} seed={seed} states={states} events={tv_events} wall={wall:.0f}s")
